@@ -332,7 +332,7 @@ func runCheck(repo, id, tier string) int {
 	// ---- discharge --------------------------------------------------------------------------
 	work, _ := os.MkdirTemp("", "vcgo-"+id+"-")
 	defer os.RemoveAll(work)
-	quickSec, fullSec := 4, 90
+	quickSec, fullSec := 4, 150
 	if tier == "thorough" {
 		quickSec, fullSec = 10, 600
 	}
@@ -541,6 +541,9 @@ func runCheck(repo, id, tier string) int {
 	for _, x := range extra {
 		nObl += x.Obligations
 		nDis += x.Discharged
+		if x.Backend != "" && x.Discharged > 0 {
+			bySolver[x.Backend] += x.Discharged
+		}
 		for _, f := range x.Failures {
 			fail(f.Name, f.Reason, f.Detail, "", f.Witness)
 		}
